@@ -3,7 +3,7 @@
    A history is a setup prefix (app / asset registrations, funding) followed by ANY finite list of
    the other operations of Model/Liquidity.v (orders of the three types, cancellations, pool and
    farming operations, BeginBlock, EndBlock with ANY matching result / share arithmetic as ENV). *)
-From Comdex Require Import Lib.Base Lib.DecArith Model.Liquidity Model.LiquidityWitness Proofs.LiquidityProofs Proofs.LiquidityProofs2.
+From Comdex Require Import Lib.Base Lib.DecArith Model.Liquidity Model.LiquidityWitness Proofs.LiquidityProofs Proofs.LiquiditySweep Proofs.LiquidityProofs2.
 
 (* what was taken from the orderer at placement = offer coin + swap-fee reserve, where the reserve
    is floor(offer * rate) (0 for market-making orders) - for every order stored in any reachable state *)
